@@ -663,6 +663,17 @@ def wrap_lattice(ctx):
                 shapes.append(([AZ[a], LON[l_], TMP[t_]], f"az={a},lon={l_},tmp={t_}"))
     reqs, reals = [], []
     n = 3
+    # `_wrap_result` is a PRIVATE interface: if its shape changes (a refactoring, not a property violation) this lattice cannot be
+    # driven and says so instead of raising an alarm; the public-API lattices still cover the behaviour
+    import inspect
+    from vector.backends import object as _O
+    try:
+        if list(inspect.signature(_O.VectorObject2D._wrap_result).parameters) != ["self", "cls", "result", "returns", "num_vecargs"]:
+            raise AttributeError("signature")
+    except (AttributeError, TypeError, ValueError):
+        if hasattr(ctx, "notes"):
+            ctx.notes.append("_wrap_result no longer has the signature (self, cls, result, returns, num_vecargs): direct lattice skipped")
+        return [], {"wrap_result_calls": 0}
 
     def src_name(val, table):
         for k, v in table.items():
